@@ -124,9 +124,9 @@ def read_body(case, ctx, tmp):
                 t = tuple(idx)
                 single = t[0] if len(t) == 1 else t
                 dct = {d: ix for d, ix in zip(m.dims, idx) if not c01.is_full(ix)}
-                spell = rng.choice(['getitem', 'loc', 'sel', 'read', 'read_nc', 'take-dict', 'read-axis'])
+                spell = rng.choice(['getitem', 'loc', 'sel', 'read', 'read_nc', 'read_nc-tuple', 'take-dict', 'read-axis', 'read_nc-axis'])
                 if tol is not None:
-                    spell = rng.choice(['read', 'read_nc', 'nloc'])
+                    spell = rng.choice(['read', 'read_nc', 'read_nc-tuple', 'nloc'])
                 def expect():
                     if spell == 'nloc':
                         return m.nloc[single]
@@ -143,11 +143,17 @@ def read_body(case, ctx, tmp):
                     fn_ = lambda: f[k].read(indices=dict(dct))
                 elif spell == 'nloc':
                     fn_ = lambda: f[k].nloc[single]
-                elif spell == 'read-axis':
+                elif spell in ('read-axis', 'read_nc-axis'):
                     q = rng.randrange(m.ndim)
                     t = tuple(ix if i == q else slice(None) for i, ix in enumerate(idx))
                     ax = rng.choice([q, m.dims[q]])
-                    fn_ = (lambda: f[k].read(idx[q], axis=ax)) if ax != 0 else (lambda: f[k].read(idx[q]))
+                    if spell == 'read-axis':
+                        fn_ = (lambda: f[k].read(idx[q], axis=ax)) if ax != 0 else (lambda: f[k].read(idx[q]))
+                    else:
+                        # the index refers to the variable's own dimensions, wherever they sit among the file's dimensions
+                        fn_ = (lambda: da.read_nc(fn, k, indices=idx[q], axis=ax)) if ax != 0 else (lambda: da.read_nc(fn, k, indices=idx[q]))
+                elif spell == 'read_nc-tuple':
+                    fn_ = lambda: da.read_nc(fn, k, indices=single, indexing='label', tol=tol)
                 else:
                     fn_ = lambda: da.read_nc(fn, k, indices=dict(dct), indexing='label', tol=tol)
                 label = "on-disk %s of %r with idx=%s tol=%r (labels %s)" % (spell, k, codec.short(t, 160), tol, codec.short([ax.values.tolist() for ax in m.axes], 120))
@@ -166,7 +172,7 @@ def read_body(case, ctx, tmp):
                 pidx = tuple(rng.choice([rng.randrange(ax.size), -1, slice(None), slice(0, ax.size, 2), slice(1, None), sorted(rng.sample(range(ax.size), rng.randint(1, ax.size))),
                                          np.array([rng.random() < 0.5 for _ in range(ax.size)], dtype=bool)]) for ax in m.axes)
                 psingle = pidx[0] if len(pidx) == 1 else pidx
-                pspell = rng.choice(['ix', 'iloc', 'isel', 'read-pos', 'read_nc-pos'])
+                pspell = rng.choice(['ix', 'iloc', 'isel', 'read-pos', 'read_nc-pos', 'read_nc-pos-tuple'])
                 pd = {d: ix for d, ix in zip(m.dims, pidx) if not c01.is_full(ix)}
                 if pspell == 'ix':
                     pf = lambda: f[k].ix[psingle]
@@ -176,6 +182,8 @@ def read_body(case, ctx, tmp):
                     pf = lambda: f[k].isel(**pd)
                 elif pspell == 'read-pos':
                     pf = lambda: f[k].read(indices=pidx, indexing='position')
+                elif pspell == 'read_nc-pos-tuple':
+                    pf = lambda: da.read_nc(fn, k, indices=psingle, indexing='position')
                 else:
                     pf = lambda: da.read_nc(fn, k, indices=dict(pd), indexing='position')
                 plabel = "on-disk %s of %r with p=%s (shape %r)" % (pspell, k, codec.short(pidx, 160), m.shape)
